@@ -1,1 +1,76 @@
 // Kani contract harnesses for /repo/arrow-string/src/length.rs (child module: sees private items via super::)
+use super::*;
+#[path = "/verif/kani/support/spec.rs"]
+mod spec;
+#[allow(unused_imports)]
+use spec::*;
+use arrow_buffer::{BooleanBuffer, Buffer, ScalarBuffer};
+
+// Contract (C20, "length/bit length ... return, for every row, the result of the straightforward
+// definition", nulls preserved): for an offsets buffer of 3 rows (4 monotone non-negative offsets, all
+// symbolic, so every byte length per row) and a symbolic validity bitmap (`bitmap`) or none (`nonulls`):
+//   length_impl      : output has 3 rows; row k valid <=> input row k valid; value k == offsets[k+1]-offsets[k]
+//   bit_length_impl  : same with value k == 8 * (offsets[k+1]-offsets[k])
+// Precondition of the bit-length contract: 8 * byte_length fits the offset type (byte length < 2^28 for
+// i32 offsets): the code multiplies with mul_wrapping, see finding_bit_length_wraps.
+// The typed cores are called directly (the public `length`/`bit_length` dispatch on `dyn Array`).
+macro_rules! len_unit {
+    ($name:ident, $f:ident, $p:ty, $n:ty, $mul:expr, $bitmap:tt) => {
+        #[kani::proof]
+        #[kani::unwind(6)]
+        fn $name() {
+            let o: [$n; 4] = kani::any();
+            kani::assume(0 <= o[0] && o[0] <= o[1] && o[1] <= o[2] && o[2] <= o[3]);
+            kani::assume(((o[3] - o[0]) as i128) * ($mul as i128) <= (<$n>::MAX as i128));
+            let bits: u8 = kani::any();
+            let offsets = OffsetBuffer::<$n>::new(ScalarBuffer::from(o.to_vec()));
+            let nulls: Option<NullBuffer> = sel!($bitmap, Some(NullBuffer::new(BooleanBuffer::new(Buffer::from_slice_ref(&[bits]), 0, 3))), None);
+            let r: ArrayRef = $f::<$p>(&offsets, nulls.as_ref());
+            assert!(r.len() == 3);
+            let a = r.as_primitive_opt::<$p>();
+            assert!(a.is_some());
+            let a = a.unwrap();
+            let k: usize = kani::any();
+            kani::assume(k < 3);
+            let in_valid = sel!($bitmap, (bits >> k) & 1 == 1, true);
+            assert!(a.is_valid(k) == in_valid);
+            assert!((a.value(k) as i128) == ((o[k + 1] - o[k]) as i128) * ($mul as i128));
+            kani::cover!(in_valid && a.value(k) > 0);
+            sel!($bitmap, kani::cover!(!in_valid && a.value(k) > 0), ());
+            std::mem::forget(r);
+            std::mem::forget(nulls);
+            std::mem::forget(offsets);
+        }
+    };
+}
+macro_rules! sel { (true, $a:expr, $b:expr) => { $a }; (false, $a:expr, $b:expr) => { $b }; }
+
+// @unit name=length_i32_bitmap props=C20 kind=bounded bound=rows=3_offsets_and_validity_symbolic fns=length_impl timeout=600 mem=4
+len_unit!(length_i32_bitmap, length_impl, Int32Type, i32, 1, true);
+// @unit name=length_i32_nonulls props=C20 kind=bounded bound=rows=3_offsets_symbolic fns=length_impl timeout=600 mem=4 tier=thorough
+len_unit!(length_i32_nonulls, length_impl, Int32Type, i32, 1, false);
+// NOT CONFIRMED under load (never seen to finish on the shared machine, load 40-75): keep tier=thorough until re-measured
+// @unit name=length_i64_bitmap props=C20 kind=bounded bound=rows=3_offsets_and_validity_symbolic fns=length_impl timeout=600 mem=4 tier=thorough
+len_unit!(length_i64_bitmap, length_impl, Int64Type, i64, 1, true);
+// @unit name=bit_length_i32_bitmap props=C20 kind=bounded bound=rows=3_offsets_and_validity_symbolic_byte_length<2^28 fns=bit_length_impl timeout=600 mem=4 tier=thorough
+len_unit!(bit_length_i32_bitmap, bit_length_impl, Int32Type, i32, 8, true);
+// NOT CONFIRMED under load (never seen to finish on the shared machine, load 40-75): keep tier=thorough until re-measured
+// @unit name=bit_length_i32_nonulls props=C20 kind=bounded bound=rows=3_offsets_symbolic_byte_length<2^28 fns=bit_length_impl timeout=600 mem=4 tier=thorough
+len_unit!(bit_length_i32_nonulls, bit_length_impl, Int32Type, i32, 8, false);
+// NOT CONFIRMED under load (never seen to finish on the shared machine, load 40-75): keep tier=thorough until re-measured
+// @unit name=bit_length_i64_bitmap props=C20 kind=bounded bound=rows=3_offsets_and_validity_symbolic_byte_length<2^60 fns=bit_length_impl timeout=600 mem=4 tier=thorough
+len_unit!(bit_length_i64_bitmap, bit_length_impl, Int64Type, i64, 8, true);
+
+// FINDING harness (not a registered unit; FAILS on the unchanged code): bit_length of a Utf8/Binary value of
+// >= 2^28 bytes does not fit Int32 and is silently wrapped (mul_wrapping): offsets [0, 268435456] give
+// -2147483648 instead of 2147483648 (no error, no null).
+#[kani::proof]
+#[kani::unwind(6)]
+fn finding_bit_length_wraps() {
+    let offsets = OffsetBuffer::<i32>::new(ScalarBuffer::from(vec![0i32, 268_435_456]));
+    let r: ArrayRef = bit_length_impl::<Int32Type>(&offsets, None);
+    let a = r.as_primitive::<Int32Type>();
+    assert!(a.value(0) as i64 == 8 * 268_435_456i64);
+    std::mem::forget(r);
+    std::mem::forget(offsets);
+}
